@@ -4908,8 +4908,16 @@ CK_RV SoftHSM::C_SignFinal(CK_SESSION_HANDLE hSession, CK_BYTE_PTR pSignature, C
 	if (session == NULL) return CKR_SESSION_HANDLE_INVALID;
 
 	// Check if we are doing the correct operation
-	if (session->getOpType() != SESSION_OP_SIGN || !session->getAllowMultiPartOp())
+	if (session->getOpType() != SESSION_OP_SIGN)
 		return CKR_OPERATION_NOT_INITIALIZED;
+
+	// A single-part-only mechanism cannot be finalised: the call fails and, like
+	// C_SignUpdate in the same situation, it ends the signing operation
+	if (!session->getAllowMultiPartOp())
+	{
+		session->resetOp();
+		return CKR_OPERATION_NOT_INITIALIZED;
+	}
 
 	if (session->getMacOp() != NULL)
 		return MacSignFinal(session, pSignature, pulSignatureLen);
@@ -5828,8 +5836,16 @@ CK_RV SoftHSM::C_VerifyFinal(CK_SESSION_HANDLE hSession, CK_BYTE_PTR pSignature,
 	if (session == NULL) return CKR_SESSION_HANDLE_INVALID;
 
 	// Check if we are doing the correct operation
-	if (session->getOpType() != SESSION_OP_VERIFY || !session->getAllowMultiPartOp())
+	if (session->getOpType() != SESSION_OP_VERIFY)
 		return CKR_OPERATION_NOT_INITIALIZED;
+
+	// A single-part-only mechanism cannot be finalised: the call fails and, like
+	// C_VerifyUpdate in the same situation, it ends the verification operation
+	if (!session->getAllowMultiPartOp())
+	{
+		session->resetOp();
+		return CKR_OPERATION_NOT_INITIALIZED;
+	}
 
 	if (session->getMacOp() != NULL)
 		return MacVerifyFinal(session, pSignature, ulSignatureLen);
